@@ -64,6 +64,23 @@ def sscanf_hook(it, fn, i, env):
     return AV.const(1)
 
 
+def q_walk_deep(f, node, depth=3):
+    """nodes of the expression and of the defining expressions of the single-definition locals it mentions"""
+    out = list(f.walk(node))
+    f.defs_of_var('')
+    seen, frontier = set(), set(r for r in f.subtree_refs(node) if r.startswith('v:'))
+    for _ in range(depth):
+        nxt = set()
+        for r in frontier - seen:
+            seen.add(r)
+            ds_ = f._defs.get(r, [])
+            if len(ds_) == 1 and ds_[0][1] is not None:
+                out += list(f.walk(ds_[0][1]))
+                nxt |= set(x for x in f.subtree_refs(ds_[0][1]) if x.startswith('v:'))
+        frontier = nxt
+    return out
+
+
 def run(ctx):
     ctx.explanation = ('Abstract interpretation of the escaping / codec sources per input-byte box: util::escape (both overloads), urlencode_impl, urldecode, the base64url tables, bencode/bdecode and the size formulas, '
                        'compared with the five-entity table, RFC 3986 unreserved set and RFC 4648 section 5; routing rules check that every stream filter and every form widget output goes through these functions.')
@@ -75,6 +92,7 @@ def run(ctx):
     R3 = ctx.rule('C15.R3', 'urlencode: unreserved bytes verbatim, everything else %hh (lower-case hex, high nibble first); urldecode inverts it for every byte')
     R5 = ctx.rule('C15.R5', 'streaming variants report a failing sink: every stream-buffer write result decides the returned status (documented -1), and the failure flag is read from the object that did the writing')
     R6 = ctx.rule('C15.R6', 'buffered stream filter (filterbuf<F,N>, N>0) keeps the byte order: bytes reach Filter::convert as the put area [pbase,pptr), and a direct hand-over of caller bytes happens only after the put area was flushed')
+    R7 = ctx.rule('C15.R7', 'base64url range codecs: for every length 0..40 (input bytes unknown) the drivers hand each 3-byte / 4-character block and the short tail to the block codec at the matching input and output offsets, every byte of a buffer of exactly encoded_size / decoded_size bytes is written once, nothing outside it, and the returned pointer is its end; the string overloads convert the whole input into the start of that buffer and hand back exactly it')
     R4 = ctx.rule('C15.R4', 'base64url: 64 distinct URL-safe characters, decode table is the inverse, block codec exact, size formulas exact, invalid length rejected')
 
     # ---------------- R1
@@ -190,6 +208,45 @@ def run(ctx):
             if not ok:
                 bad.append((v, 'decoded to %s' % ob))
     ctx.check(not bad, R3, 'urldecode:plain-bytes-and-plus', ('byte %02X: %s' % bad[0]) if bad else '', ud.where)
+    # sequences: after a unit (one plain byte, or %hh) the decoder continues exactly behind it - "%41" X and X "%41" for every byte X,
+    # and two escapes in a row
+    bad = []
+    nb = 0
+
+    def dec1(v):
+        return [] if v == 37 else ([32] if v == 43 else [v])
+    for hx in (b'41', b'0a', b'ff', b'FF', b'00', b'2b', b'25', b'7e'):
+        hval = int(hx, 16)
+        for order in ('esc-then-byte', 'byte-then-esc', 'esc-esc'):
+            def run6(it, hx=hx, order=order):
+                it.hooks = hooks
+                esc = [AV.const(37), AV.const(hx[0]), AV.const(hx[1])]
+                if order == 'esc-then-byte':
+                    el = esc + [it.inbyte(0)]
+                elif order == 'byte-then-esc':
+                    el = [it.inbyte(0)] + esc
+                else:
+                    el = esc + esc
+                arr = Arr(el, 'input')
+                return it.call_fn(ud, [PV(arr, 0), PV(arr, len(el))])
+            for (bx, o, it) in absint.explore(P, run6, [[(0, 255)]] if order != 'esc-esc' else [[]]):
+                nb += 1
+                ob = out_bytes(o)
+                if order == 'esc-esc':
+                    if ob != [frozenset([hval]), frozenset([hval])]:
+                        bad.append((hx, '%%%s%%%s decodes to %s' % (hx.decode(), hx.decode(), ob)))
+                    continue
+                lo, hi = bx[0]
+                for v in sorted(set([lo, hi]) | set(x for x in (37, 43) if lo <= x <= hi)):
+                    d1 = dec1(v)
+                    if v == 37 and order == 'byte-then-esc':
+                        want = [hval]                   # "%%hh": the first % is not followed by two hex digits and is dropped, the escape still decodes
+                    else:
+                        want = ([hval] + d1) if order == 'esc-then-byte' else (d1 + [hval])
+                    got_ok = len(ob) == len(want) and all(w in ob[k_] for k_, w in enumerate(want)) and (lo == hi or (37 not in range(lo, hi + 1) and 43 not in range(lo, hi + 1)))
+                    if not got_ok:
+                        bad.append((hx, '%s with byte %02X decodes to %s, expected %s' % (order, v, ob, want)))
+    ctx.check(not bad, R3, 'urldecode:sequences-of-two-units', ('%%%s: %s' % (bad[0][0].decode(), bad[0][1])) if bad else '', ud.where, detail={'boxes': nb})
 
     # ---------------- R4 base64
     ANON = '(anonymous namespace)::'
@@ -305,6 +362,129 @@ def run(ctx):
         szv = [d['ref'] for i in f.all_nodes() if f.N(i)['k'] == 'DeclStmt' for d in f.N(i)['decls'] if d.get('init') is not None and esz and esz[0] in set(f.walk(d['init']))]
         vec = [i for i in f.calls() if f.N(i)['k'] in ('CXXConstructExpr',) and 'std::vector' in (f.callee(i) or '') and szv and szv[0] in f.subtree_refs(i)]
         ctx.check(bool(szv) and len(vec) == 1, R4, 'encode(string):buffer-sized-by-encoded_size', 'encode sizes its buffer differently from encoded_size()', f.where)
+
+    # ---------------- R7 range drivers of the base64url codec
+    encr = [f for f in P.by_bname.get('cppcms::b64url::encode', []) if len(f.params) == 3 and 'char *' in (f.types[f.params[2]['t']] or '')]
+    decr = [f for f in P.by_bname.get('cppcms::b64url::decode', []) if len(f.params) == 3 and 'char *' in (f.types[f.params[2]['t']] or '')]
+    ctx.require(len(encr) == 1 and len(decr) == 1, 'C15.R7: range overloads encode/decode(begin,end,target) not found')
+    encr, decr = encr[0], decr[0]
+
+    def run_range(fn_, blockfn, L, outlen, out_of):
+        """interpret the driver over an input of L unknown bytes; the block codec is replaced by its verified summary (R4): it
+        reads in[0..len) and writes out[0..out_of(len)); returns (end offset, block calls, times each output byte was written)"""
+        events, written = [], [0] * outlen
+
+        def block(it, fn, i, env):
+            a = [it.rvalue(fn, x, env) for x in fn.args(i)]
+            if not (isinstance(a[0], PV) and isinstance(a[1], PV) and isinstance(a[2], AV) and a[2].is_const()):
+                raise absint.Unsupported('block codec call shape')
+            n_ = a[2].lo
+            if a[0].arr.name != 'src' or a[0].off < 0 or a[0].off + n_ > L:
+                raise absint.OutOfBounds('block codec reads [%d,%d) of an input of %d bytes' % (a[0].off, a[0].off + n_, L))
+            m_ = out_of(n_)
+            if a[1].arr.name == 'dst':
+                if a[1].off < 0 or a[1].off + m_ > outlen:
+                    raise absint.OutOfBounds('block codec writes [%d,%d) of a buffer of %d bytes' % (a[1].off, a[1].off + m_, outlen))
+                for k_ in range(m_):
+                    written[a[1].off + k_] += 1
+            events.append((a[0].off, a[1].off if a[1].arr.name == 'dst' else None, n_))
+            return AV.const(m_)
+        it = absint.Interp(P, [(0, 255)] * L, hooks={blockfn.bname: block, blockfn.id: block})
+        src = Arr([it.inbyte(k_) for k_ in range(L)], 'src')
+        dst = Arr([AV.const(0)] * outlen, 'dst')
+        r = it.call_fn(fn_, [PV(src, 0), PV(src, L), PV(dst, 0)])
+        return (r.off if isinstance(r, PV) and r.arr is dst else None), events, written
+    bad = []
+    nlen = 0
+    for (fn_, blockfn, grp, out_of, size_of, nm_) in ((encr, benc, 3, lambda n_: n_ + 1, lambda L: 4 * (L // 3) + (0, 2, 3)[L % 3], 'encode'),
+                                                    (decr, bdec, 4, lambda n_: n_ - 1, lambda L: 3 * (L // 4) + (0, 0, 1, 2)[L % 4], 'decode')):
+        for L in range(0, 41):
+            if nm_ == 'decode' and L % 4 == 1:
+                continue                          # impossible length: rejected by decoded_size before the driver is called (R4)
+            nlen += 1
+            want = [(grp * k_, out_of(grp) * k_, grp) for k_ in range(L // grp)] + ([(grp * (L // grp), out_of(grp) * (L // grp), L % grp)] if L % grp else [])
+            try:
+                end_, ev, wr = run_range(fn_, blockfn, L, size_of(L), out_of)
+            except (absint.OutOfBounds, absint.Unsupported, absint.Split) as e:
+                bad.append((L, '%s of %d bytes into a buffer of %d: %s' % (nm_, L, size_of(L), e)))
+                break
+            if ev != want or end_ != size_of(L) or any(w != 1 for w in wr):
+                bad.append((L, '%s of %d bytes: block calls (input offset, output offset, length) %s, expected %s; returned end offset %s of %d; output bytes written %s times' % (nm_, L, ev, want, end_, size_of(L), sorted(set(wr)))))
+                break
+    ctx.check(not bad, R7, 'encode/decode(range):lengths-0..40:blocks-offsets-and-exact-size', ('length %d: %s' % bad[0]) if bad else '', decr.where, detail={'driver_runs': nlen})
+    # the stream variant: each block is encoded into a scratch array and exactly its characters are written, in order
+    encs = [f for f in P.by_bname.get('cppcms::b64url::encode', []) if len(f.params) == 3 and 'ostream' in (f.types[f.params[2]['t']] or '')]
+    ctx.check(len(encs) == 1, R7, 'encode(range,ostream):found', 'stream overload of encode not found', encr.where)
+    for fs_ in encs:
+        bad = []
+        for L in range(0, 41):
+            ev = []
+
+            def block(it, fn, i, env, ev=ev, L=L):
+                a = [it.rvalue(fn, x, env) for x in fn.args(i)]
+                if not (isinstance(a[0], PV) and isinstance(a[1], PV) and isinstance(a[2], AV) and a[2].is_const()) or a[0].off < 0 or a[0].off + a[2].lo > L:
+                    raise absint.OutOfBounds('block codec call outside the input')
+                if a[1].off != 0 or len(a[1].arr.elems) < a[2].lo + 1:
+                    raise absint.OutOfBounds('scratch array too small / not used from its start')
+                ev.append(('enc', a[0].off, a[2].lo))
+                return AV.const(a[2].lo + 1)
+
+            def wr_(it, fn, i, env, ev=ev):
+                a = [it.rvalue(fn, x, env) for x in fn.args(i)]
+                if not (isinstance(a[0], PV) and isinstance(a[1], AV) and a[1].is_const()):
+                    raise absint.Unsupported('ostream::write shape')
+                ev.append(('write', a[0].off, a[1].lo))
+                return AV.const(0)
+            it = absint.Interp(P, [(0, 255)] * L, hooks={benc.bname: block, benc.id: block, 'std::basic_ostream::write': wr_})
+            src = Arr([it.inbyte(k_) for k_ in range(L)], 'src')
+            want = []
+            for k_ in range(L // 3):
+                want += [('enc', 3 * k_, 3), ('write', 0, 4)]
+            if L % 3:
+                want += [('enc', 3 * (L // 3), L % 3), ('write', 0, L % 3 + 1)]
+            try:
+                it.call_fn(fs_, [PV(src, 0), PV(src, L), absint.Out('stream')])
+            except (absint.OutOfBounds, absint.Unsupported, absint.Split) as e:
+                bad.append((L, str(e)))
+                break
+            if ev != want:
+                bad.append((L, 'block calls / writes %s, expected %s' % (ev, want)))
+                break
+        ctx.check(not bad, R7, 'encode(range,ostream):lengths-0..40:each-block-encoded-and-written-once-in-order', ('length %d: %s' % bad[0]) if bad else '', fs_.where)
+    # the string overloads pass the whole input and the start of the exactly sized buffer, and return exactly that buffer
+    for f, callee_, szfn in ((dstr, decr, ds), (estr[0] if estr else None, encr, es)):
+        if f is None:
+            continue
+        nm_ = 'decode(string)' if f is dstr else 'encode(string)'
+        inp = q.param_by_index(f, 0)
+        cs = [i for i in f.calls() if f.N(i).get('callee') == callee_.id]
+        okc = len(cs) == 1
+        if okc:
+            a = f.args(cs[0])
+            b_calls = [q.short_of(f.bcallee(j) or '') for j in q.expr_calls_deep(f, a[0])]
+            e_calls = [q.short_of(f.bcallee(j) or '') for j in q.expr_calls_deep(f, a[1])]
+            okc = inp in q.deep_refs(f, a[0]) and inp in q.deep_refs(f, a[1]) and any(x in ('c_str', 'data') for x in b_calls) and any(x in ('size', 'length') for x in e_calls)
+            # start of the buffer: &buf[0] (possibly through a cast / a local)
+            def zero_index(node):
+                idx = [j for j in q_walk_deep(f, node) if f.N(j)['k'] == 'CXXOperatorCallExpr' and f.N(j).get('op') == '[]']
+                fr = [j for j in q.expr_calls_deep(f, node) if q.short_of(f.bcallee(j) or '') in ('front', 'data', 'begin')]
+                return (len(idx) == 1 and f.const_value(f.N(idx[0])['ch'][2]) == 0) or (not idx and bool(fr))
+            okc = okc and zero_index(a[2])
+            asg_ = [i for i in f.calls() if q.short_of(f.bcallee(i) or '') == 'assign' and f.N(i)['k'] == 'CXXMemberCallExpr']
+            okc = okc and len(asg_) == 1 and zero_index(f.args(asg_[0])[0]) and any(f.N(j).get('callee') == szfn.id for j in q.expr_calls_deep(f, f.args(asg_[0])[1])) and q.before(f, cs[0], asg_[0])
+        # the empty result is handed out early only when the computed size is 0
+        szc = [j for j in f.calls() if f.N(j).get('callee') == szfn.id]
+        szv_ = [d['ref'] for i in f.all_nodes() if f.N(i)['k'] == 'DeclStmt' for d in f.N(i)['decls'] if d.get('init') is not None and szc and szc[0] in set(f.walk(d['init']))]
+        g_z = f.gate_edges(lambda atom, pol, f=f, szv_=szv_: f.N(atom)['k'] == 'BinaryOperator' and f.N(atom).get('op') in ('==', '!=') and bool(szv_) and f.ref_of(f.N(atom)['ch'][0]) == szv_[0] and
+                           f.const_value(f.N(atom)['ch'][1]) == 0 and ((f.N(atom)['op'] == '==' and pol is True) or (f.N(atom)['op'] == '!=' and pol is False)))
+        if okc:
+            early = [r for r in f.returns() if not q.before(f, cs[0], r)]
+            clr_ = [i for i in f.calls() if q.short_of(f.bcallee(i) or '') == 'clear' and f.N(i)['k'] == 'CXXMemberCallExpr']
+            neg_ = f.gate_edges(lambda atom, pol, f=f, szv_=szv_: f.N(atom)['k'] == 'BinaryOperator' and f.N(atom).get('op') == '<' and bool(szv_) and f.ref_of(f.N(atom)['ch'][0]) == szv_[0] and f.const_value(f.N(atom)['ch'][1]) == 0 and pol is True)
+            for k_, r in enumerate(early):
+                ctx.check(bool(g_z + neg_) and f.only_through(r, g_z + neg_), R7, '%s:early-exit#%d:only-for-size-0-or-invalid' % (nm_, k_), 'the conversion is skipped (empty result) for an input whose converted size is not 0', f.loc(r))
+        ctx.check(okc, R7, '%s:whole-input-into-the-start-of-the-buffer-and-back' % nm_, 'the string overload does not convert [c_str, c_str+size) into &buf[0] and hand back buf[0..size)', f.where)
+    ctx.floor(R7, 3)
 
     # ---------------- R2 routing
     FB = 'cppcms::filters::'
